@@ -297,11 +297,12 @@ func (cf *compactFlusher) StreamWriter() (table.StreamWriter, error) {
 	if err := cf.beforeAdd(); err != nil {
 		return nil, err
 	}
-	sw := cf.compactJob.state.builder.StreamWriter()
+	builder := cf.compactJob.state.builder
 	// hooks stream writer with compaction processing checkers
 	cf.streamWriter = &compactFlusherStreamWriter{
 		compactFlusher: cf,
-		StreamWriter:   sw,
+		StreamWriter:   builder.StreamWriter(),
+		builder:        builder,
 	}
 	return cf.streamWriter, nil
 }
@@ -363,10 +364,37 @@ func (cf *compactFlusher) Release() {
 type compactFlusherStreamWriter struct {
 	compactFlusher *compactFlusher
 	table.StreamWriter
+	builder table.Builder // builder(output file) which current stream writer belongs to
+	err     error         // open new output file failure
+}
+
+// Prepare prepares to write the key, if previous output file was finished(big enough) opens a new output file,
+// and binds the stream writer to it, because the user(like metric data flusher) gets the stream writer only once.
+func (cfsw *compactFlusherStreamWriter) Prepare(key uint32) {
+	cfsw.err = cfsw.compactFlusher.beforeAdd()
+	if cfsw.err != nil {
+		return
+	}
+	if builder := cfsw.compactFlusher.compactJob.state.builder; builder != cfsw.builder {
+		cfsw.builder = builder
+		cfsw.StreamWriter = builder.StreamWriter()
+	}
+	cfsw.StreamWriter.Prepare(key)
+}
+
+// Write writes the data, returns the failure of opening output file if it happens.
+func (cfsw *compactFlusherStreamWriter) Write(data []byte) (int, error) {
+	if cfsw.err != nil {
+		return 0, cfsw.err
+	}
+	return cfsw.StreamWriter.Write(data)
 }
 
 // Commit checks if build's file if it is big enough
 func (cfsw *compactFlusherStreamWriter) Commit() error {
+	if cfsw.err != nil {
+		return cfsw.err
+	}
 	// table's StreamWriter Commit won't raise error
 	_ = cfsw.StreamWriter.Commit()
 	return cfsw.compactFlusher.afterAdd()
